@@ -293,6 +293,7 @@ func (fx *FX) applyContract(fr *frame, st *State, c *Contract, name string, call
 		}
 	}
 	old := st.clone()
+	defer fx.preserveLocalBoxes(fr, old, st, args)
 	switch {
 	case c == nil:
 		fx.havocAll(st)
@@ -481,12 +482,18 @@ func (fx *FX) freeVarNames(fr *frame, st *State, fn *ssa.Function, bindings []Va
 func (fx *FX) closureCreated(fr *frame, st *State, t *ssa.MakeClosure, clo *Closure) {
 	fn := t.Fn.(*ssa.Function)
 	c := fx.e.contractFor(fn)
-	if c == nil || (len(c.FreeReq) == 0 && len(c.ClosureInv) == 0) {
+	if c == nil || (len(c.FreeReq) == 0 && len(c.ClosureInv) == 0 && len(c.ClosureGhost) == 0) {
 		return
 	}
 	env := fx.newEnv(fr, st)
 	env.names = fx.freeVarNames(fr, st, fn, clo.Bindings)
 	env.onlyNames = true
+	for _, cl := range c.ClosureGhost {
+		val := fx.evalExpr(env, cl.Expr)
+		val = coerce(val, fx.compSorts["G:"+cl.Name], true)
+		fx.setComp(st, "G:"+cl.Name, val.T)
+		logComp("G:" + cl.Name)
+	}
 	for j, cl := range c.FreeReq {
 		g := fx.evalBool(env, cl.Expr)
 		fx.oblige(st, "pre", fmt.Sprintf("closure(%s).free-requires#%d", fx.e.fnName(fn), j+1), cl.Text, g, t.Pos(), propsOr(cl.Props, c.Props))
@@ -660,4 +667,52 @@ func (fx *FX) doAppend(fr *frame, st *State, cc *ssa.CallCommon, args []Val, pos
 	logComp(key)
 	// nil slice appended with nothing stays nil: region 0 only if fresh not used; ignore (len 0)
 	return fx.define("app", mkSlice(reg, sOff(s), newLen, newCap))
+}
+
+// preserveLocalBoxes: captured-variable cells that belong to the calling function (allocated by it,
+// or its own free variables) and are not captured by a closure handed to the callee cannot be
+// changed by the call.
+func (fx *FX) preserveLocalBoxes(fr *frame, old, st *State, args []Val) {
+	passed := map[string]bool{}
+	for _, a := range args {
+		if a.Clo != nil {
+			for _, b := range a.Clo.Bindings {
+				if b.Addr == nil && b.T.S != "" {
+					passed[b.T.S] = true
+				}
+			}
+		}
+	}
+	var refs []Val
+	for v, val := range fr.vals {
+		if al, ok := v.(*ssa.Alloc); ok && val.Addr == nil && val.T.S != "" {
+			if _, isStruct := derefType(al.Type()).Underlying().(*types.Struct); !isStruct {
+				refs = append(refs, Val{T: val.T, Typ: derefType(al.Type())})
+			}
+		}
+	}
+	for i, fv := range fr.fn.FreeVars {
+		if i < len(fr.freeVals) && fr.freeVals[i].Addr == nil && fr.freeVals[i].T.S != "" {
+			if pt, ok := fv.Type().Underlying().(*types.Pointer); ok {
+				if _, isStruct := pt.Elem().Underlying().(*types.Struct); !isStruct {
+					refs = append(refs, Val{T: fr.freeVals[i].T, Typ: pt.Elem()})
+				}
+			}
+		}
+	}
+	for _, r := range refs {
+		if passed[r.T.S] {
+			continue
+		}
+		srt := fx.e.W.SortOf(r.Typ)
+		key := "B:" + sortID(srt)
+		if fx.compSorts[key] == "" {
+			continue
+		}
+		o := fx.comp(old, key, SArr(SInt, srt))
+		n := fx.comp(st, key, SArr(SInt, srt))
+		if o.S != n.S {
+			fx.assume(st.reach, IdEq(Select(n, r.T), Select(o, r.T)))
+		}
+	}
 }
